@@ -245,7 +245,101 @@ def gen_lisp():
         lines.append(f"Definition {name} : list N := {coq_text(src(path))}.")
     return "\n".join(lines) + "\n"
 
-GENERATORS = {"Config_gen.v": gen_config, "Numbers_gen.v": gen_numbers, "NativeTable_gen.v": gen_natives, "LispSrc_gen.v": gen_lisp}
+# ---------------------------------------------------------------------------
+# static facts about the Rust source (syntactic)
+# ---------------------------------------------------------------------------
+def struct_body(text, header_re):
+    m = re.search(header_re + r"\s*\{", text)
+    if not m:
+        raise TieBroken(header_re, "declaration not found")
+    i = m.end() - 1
+    depth, j = 0, i
+    while j < len(text):
+        if text[j] == "{": depth += 1
+        elif text[j] == "}":
+            depth -= 1
+            if depth == 0:
+                return text[i + 1:j]
+        j += 1
+    raise TieBroken(header_re, "unbalanced braces")
+
+def gen_static():
+    mem = src("src/memory/mod.rs")
+    # 1. raw-pointer fields of the heap structs
+    ptr_fields = []
+    for struct, hdr in [("ConsCell", r"pub struct ConsCell"), ("Symbol", r"pub struct Symbol"), ("NormalFunction", r"pub struct NormalFunction"),
+                        ("Trap", r"pub struct Trap"), ("GcRef", r"pub struct GcRef")]:
+        body = struct_body(mem, hdr)
+        for name, ty in re.findall(r"(\w+)\s*:\s*([^,\n]+)", body):
+            if "*mut CellContent" in ty or "*const CellContent" in ty:
+                ptr_fields.append((struct, name))
+    enum_body = struct_body(mem, r"pub enum MetaValue")
+    mm = re.search(r"Meta\s*\{([^}]*)\}", enum_body)
+    if not mm:
+        raise TieBroken("MetaValue::Meta", "variant not found")
+    for name, ty in re.findall(r"(\w+)\s*:\s*([^,}]+)", mm.group(1)):
+        if "*mut CellContent" in ty or "*const CellContent" in ty:
+            ptr_fields.append(("Meta", name))
+    # 2. what the mark phase pushes
+    collect = fn_body(mem, "collect")
+    mark_part = collect.split("// remove unreachable cells")[0] if "// remove unreachable cells" in collect else collect
+    pushes = re.findall(r"stack\.push\(((?:[^()]|\([^()]*\))*)\)", mark_part)
+    norm = []
+    for e in pushes:
+        e = e.strip()
+        if e == "cell.as_ptr_mut()": norm.append(("root", "cell"))
+        elif e in ("*actual_value", "actual_value"): norm.append(("Meta", "value"))
+        elif re.fullmatch(r"cons\.(\w+)", e): norm.append(("ConsCell", e.split(".")[1]))
+        elif re.fullmatch(r"trap\.(\w+)", e): norm.append(("Trap", e.split(".")[1]))
+        elif re.fullmatch(r"f\.(\w+)", e): norm.append(("NormalFunction", e.split(".")[1]))
+        elif e in ("*p", "p"):
+            if not re.search(r"for p in f\.parameters\.iter\(\)", mark_part):
+                raise TieBroken("collect", "push of p outside the parameters loop")
+            norm.append(("NormalFunction", "parameters"))
+        else:
+            raise TieBroken("collect", "unrecognised push in the mark phase: " + e)
+    visited_check = bool(re.search(r"if\s*!\s*reachable\.insert\(cell\)\s*\{[^}]*continue", mark_part, re.S))
+    # 3. field order of struct Memory
+    mbody = struct_body(mem, r"pub struct Memory")
+    mfields = re.findall(r"^\s*(?:pub\s+)?(\w+)\s*:", mbody, re.M)
+    # 4. raw pointers / unsafe outside src/memory (hooks excluded)
+    offenders = []
+    for root, _, files in os.walk(os.path.join(REPO, "src")):
+        for fn in files:
+            if not fn.endswith(".rs"): continue
+            path = os.path.join(root, fn)
+            rel = os.path.relpath(path, REPO)
+            if rel.startswith("src/memory/") or "verif" in rel: continue
+            t = re.sub(r"//[^\n]*", "", open(path, encoding="utf-8").read())
+            for pat in (r"\bunsafe\b", r"\*mut\b", r"\*const\b", r"\.pointer\b", r"mem::forget", r"ManuallyDrop", r"Box::leak", r"transmute"):
+                if re.search(pat, t):
+                    offenders.append((rel, pat.replace("\\b", "").replace("\\", "")))
+    # 5. iterations over hash maps (anything whose order could reach an observable result)
+    iters = []
+    for rel in ["src/memory/mod.rs", "src/native/debug/mod.rs", "src/native/globals/mod.rs", "src/native/eval/mod.rs", "src/native/misc/mod.rs", "src/native/reflection/mod.rs"]:
+        t = re.sub(r"//[^\n]*", "", src(rel))
+        for fm in re.finditer(r"\bfn\s+(\w+)", t):
+            name = fm.group(1)
+            try:
+                b = fn_body(t, name)
+            except TieBroken:
+                continue
+            if re.search(r"(modules|definitions|symbols|exports|msg)\s*\.\s*(iter|keys|values|into_iter|drain)\s*\(", b) or re.search(r"for\s*\([^)]*\)\s*in\s*(self\.)?(modules|symbols)", b):
+                iters.append((rel, name))
+    iters = sorted(set(iters))
+    def pairs(l):
+        return "[" + "; ".join(f"({coq_string(a)}, {coq_string(b)})" for a, b in l) + "]"
+    lines = ["(* GENERATED static facts about the Rust source by gen/gen.py - do not edit *)",
+             "From Coq Require Import String List.", "Import ListNotations.", "Local Open Scope string_scope.", "",
+             f"Definition pointer_fields : list (string * string) := {pairs(ptr_fields)}.",
+             f"Definition mark_pushes : list (string * string) := {pairs(norm)}.",
+             f"Definition mark_has_visited_check : bool := {'true' if visited_check else 'false'}.",
+             f"Definition memory_fields : list string := [{'; '.join(coq_string(f) for f in mfields)}].",
+             f"Definition raw_pointer_use_outside_memory : list (string * string) := {pairs(offenders)}.",
+             f"Definition hash_iteration_sites : list (string * string) := {pairs(iters)}."]
+    return "\n".join(lines) + "\n"
+
+GENERATORS = {"Config_gen.v": gen_config, "Numbers_gen.v": gen_numbers, "NativeTable_gen.v": gen_natives, "LispSrc_gen.v": gen_lisp, "Static_gen.v": gen_static}
 
 def main():
     status = {"generated": [], "changed": [], "broken": []}
